@@ -399,3 +399,41 @@ M("c05-prune-waiver-axis", "C05", "cola/libavoid/makepath.cpp",
   "                if ((bestPt.y == nextPt.y) && notInlineY && !notInlineX &&\n                        (bestPt[XDIM] != src->point[XDIM]))",
   "                if ((bestPt.y == nextPt.y) && notInlineY && !notInlineX &&\n                        (bestPt[YDIM] != src->point[YDIM]))",
   mention=["TURN-PRUNE-MIRROR"])
+
+# ---------------------------------------------------------------- C06
+M("c06-revert-route-dist", "C06", "cola/libavoid/connector.cpp",
+  "    calcRouteDist();\n \n#ifdef PATHDEBUG", " \n#ifdef PATHDEBUG", mention=["ROUTE-DIST-CACHED"])
+MUTANTS.append({"id": "c06-revert-endpoints-per-edge", "prop": "C06", "expect": "fire", "mention": ["EDGE-TEST-STATELESS"], "tu": None, "edits": [
+    {"file": "cola/libavoid/router.cpp", "count": 1,
+     "old": "            Point start = connStart;\n            Point end = connEnd;\n\n            double offy;", "new": "            double offy;"},
+    {"file": "cola/libavoid/router.cpp", "count": 1,
+     "old": "        const Point connStart = conn->m_route.ps[0];\n        const Point connEnd = conn->m_route.ps[conn->m_route.size() - 1];",
+     "new": "        Point start = conn->m_route.ps[0];\n        Point end = conn->m_route.ps[conn->m_route.size() - 1];"}]})
+M("c06-revert-abs", "C06", "cola/libavoid/router.cpp",
+  "            b = fabs(b);\n            d = fabs(d);\n", "            if ((b + d) == 0) { d = d * -1; }\n", mention=["CROSSING-POINT"])
+M("c06-abs-dropped-div-by-zero", "C06", "cola/libavoid/router.cpp",
+  "            b = fabs(b);\n            d = fabs(d);\n", "", mention=["CROSSING-POINT"])
+M("c06-crossing-swapped", "C06", "cola/libavoid/router.cpp",
+  "                x = ((b*c) + (a*d)) / (b + d);", "                x = ((b*a) + (c*d)) / (b + d);", mention=["CROSSING-POINT"])
+M("c06-deleted-not-retested", "C06", "cola/libavoid/router.cpp",
+  "            deletedObstacles.push_back(obstacle->id());\n            delete obstacle;",
+  "            if (shape) deletedObstacles.push_back(obstacle->id());\n            delete obstacle;", mention=["TRANSACTION-PHASES", "deleted ids recorded"])
+M("c06-moved-not-retested", "C06", "cola/libavoid/router.cpp",
+  "                if ((actInf.type == ShapeMove) || (actInf.type == JunctionMove))\n                {\n                    // o  Check all edges that were blocked by moved obstacle.",
+  "                if (actInf.type == ShapeMove)\n                {\n                    // o  Check all edges that were blocked by moved obstacle.",
+  mention=["TRANSACTION-PHASES", "moved obstacles"])
+M("c06-marking-only-first-move", "C06", "cola/libavoid/router.cpp",
+  "        if (SelectiveReroute && (!isMove || notPartialTime || first_move))", "        if (SelectiveReroute && (notPartialTime && first_move))",
+  mention=["TRANSACTION-PHASES", "selective marking"])
+M("c06-newblocking-skipped-for-junctions", "C06", "cola/libavoid/router.cpp",
+  "            if (!isMove || notPartialTime)\n            {\n                newBlockingShape(shapePoly, pid);",
+  "            if ((!isMove || notPartialTime) && shape)\n            {\n                newBlockingShape(shapePoly, pid);", mention=["TRANSACTION-PHASES", "newBlockingShape"])
+M("c06-entry-ignores-settings", "C06", "cola/libavoid/router.cpp",
+  "    if ((actionList.empty() && (m_hyperedge_rerouter.count() == 0) &&\n         (m_settings_changes == false)) || SimpleRouting)",
+  "    if ((actionList.empty() && (m_hyperedge_rerouter.count() == 0)) || SimpleRouting)", mention=["TRANSACTION-ENTRY"])
+M("c06-generatepath-needs-both", "C06", "cola/libavoid/connector.cpp",
+  "    if (!m_false_path && !m_needs_reroute_flag)\n    {\n        // This connector is up to date.",
+  "    if (!m_false_path || !m_needs_reroute_flag)\n    {\n        // This connector is up to date.", mention=["REROUTE-ALL-FLAGGED"])
+M("c06-neutral-comment-and-local", "C06", "cola/libavoid/router.cpp",
+  "        unsigned int pid = obstacle->id();\n\n        // o  Remove entries related to this shape's vertices\n        obstacle->removeFromGraph();",
+  "        const unsigned int pid = obstacle->id();\n        Obstacle *ob = obstacle;\n        ob->removeFromGraph();", expect="silent")
